@@ -197,7 +197,7 @@ def run(events):
 def families(tier):
     if tier == 'quick':
         return [HistFamily(1, 1), HistFamily(2, 1), HistFamily(3, 1), HistFamily(2, 2), HistFamily(2, 1, prelude=PRELUDE)]
-    return [HistFamily(1, 1), HistFamily(2, 1), HistFamily(3, 1), HistFamily(2, 2), HistFamily(4, 1), HistFamily(3, 2), HistFamily(2, 2, prelude=PRELUDE), HistFamily(3, 1, prelude=PRELUDE)]
+    return [HistFamily(1, 1), HistFamily(2, 1), HistFamily(3, 1), HistFamily(2, 2), HistFamily(4, 1, kinds=('times', 'acq', 'copy')), HistFamily(3, 2), HistFamily(2, 2, prelude=PRELUDE), HistFamily(3, 1, prelude=PRELUDE)]
 
 
 def signature(f):
